@@ -1747,10 +1747,17 @@ func (m *Machine) knownZero(b *ssa.BasicBlock) map[string]bool {
 
 // EachCell visits every memory cell value observed at the end of any block.
 func (m *Machine) EachCell(f func(key string, v Vec)) {
-	for _, st := range m.mem {
+	for b, st := range m.mem {
+		if b == nil && m.parent != nil {
+			continue // the caller's memory handed to an expanded callee: visited with the caller
+		}
 		for k, v := range st {
 			f(k, v)
 		}
+	}
+	// cells of the callees the machine expanded (an object built by a helper constructor)
+	for _, s := range m.Subs {
+		s.EachCell(f)
 	}
 }
 
